@@ -62,6 +62,11 @@ Registered(st, s, e) == e \in DOMAIN st.entry[s]
 Allowed(st, ev) ==
   CASE ev.e = "reg" -> Len(st.stack) = 0 \/ Top(st).k = "cb"
     [] ev.e = "unreg" -> TRUE
+    \* the sandbox object is destroyed and created again (owners of the old incarnation live on):
+    \* no registration of the earlier incarnation is visible in the new one
+    [] ev.e = "recreate" -> Len(st.stack) = 0 /\ ev.out = "ok"
+    \* ... and when those owners end, nothing of the new incarnation changes
+    [] ev.e = "dropstale" -> ev.out = "ok"
     [] ev.e = "inv_begin" ->
          /\ ~st.unw
          /\ Len(st.stack) = 0 \/ (Top(st).k = "cb" /\ Top(st).ran /\ Top(st).ret = "none")
@@ -135,6 +140,7 @@ Apply(st, ev) ==
   CASE ev.e = "reg" -> [st EXCEPT !.entry[ev.s] = [x \in (DOMAIN @) \cup {ev.slot} |->
                                                       IF x = ev.slot THEN ev.f ELSE @[x]]]
     [] ev.e = "unreg" -> [st EXCEPT !.entry[ev.s] = [x \in {y \in DOMAIN @ : @[y] # ev.f} |-> @[x]]]
+    [] ev.e = "recreate" -> [st EXCEPT !.entry[ev.s] = [x \in {} |-> ""]]
     [] ev.e = "inv_begin" ->
          [st EXCEPT !.stack = Append(@, Frame("inv", ev.s, ev.node, 0, "tree_fn", ev.poison))]
     [] ev.e = "hook" ->
